@@ -32,6 +32,8 @@ func C17(r *core.Run) {
 	rule106(r)
 	rule1013(r)
 	rule163(r, hostMiddlewares(r))
+	rule101(r, ctx)
+	rule1016(r)
 }
 
 func rule171(r *core.Run) {
